@@ -1859,6 +1859,27 @@ def check_hygiene(h, f=None):
                 out.append(V('session-data', '%s|session-data-mismatch' %
                              impl, 'get_session(%r) returned %r, the '
                              'model holds %r' % (sid, got, model)))
+    # a client that went away: its session leaves the table in bounded time
+    if f.monitor:
+        for c in h.clients:
+            if not c.stopped or c.sid is None or \
+                    getattr(c, 'end_t', None) is None:
+                continue
+            if c.end_t + 2 * f.I + 6 * f.T + 1.0 > f.end:
+                continue
+            st = h.final['table'].get(c.sid)
+            if st is not None:
+                ph = c._upg_phase()
+                out.append(V('vanished-client-reaped',
+                             '%s|vanished-client-still-in-table|%s' % (
+                                 impl, 'mid-upgrade' if ph in (
+                                     'started', 'probed', 'sent5')
+                                 else 'steady'),
+                             'client %d vanished at t=%.4f (upgrade phase '
+                             '%s); at t=%.4f, more than 2 x ping_interval + '
+                             '6 x ping_timeout later, its session %s is '
+                             'still in the table: %r' % (
+                                 c.idx, c.end_t, ph, f.end, c.sid, st)))
     # the table holds exactly the live sessions once things have settled
     settle = f.I + 6 * f.T
     last = 0.0
@@ -1990,7 +2011,7 @@ def check_open(h, f=None):
         info = c.open_info
         if info is None:
             if req.kind == 'http' or req.ws.accepted:
-                if c.decode_errors:
+                if any(k == 'transform' for (k, _r, _m) in c.decode_errors):
                     continue    # transformation problems are C19's
                 out.append(V('open-first', '%s|no-open-packet|%s' % (impl,
                                                                       via),
